@@ -100,6 +100,11 @@ assert (1, 2) is not [1, 2]
 _d = {'a': 1}
 assert _d is _d
 assert {} is not {}
+_nan = float('nan')
+assert _nan is _nan
+assert not (_nan is not _nan)
+_cnan = complex(_nan, 1)
+assert _cnan is _cnan
 # FIXME EXC_MATCH
 
 doc="Multiple comparison"
